@@ -687,6 +687,25 @@ harness!(ser_framing_decode, unwind = 8, {
     forget(got);
 });
 
+/// The usize -> u16 / u32 narrowing helpers behind every count and length prefix: every value that fits is written as the
+/// little-endian field of the documented width (a string may be up to 2^32 - 1 bytes long, a pool up to 65535 entries).
+harness!(ser_length_prefix_widths, unwind = 8, {
+    let v: usize = kani::any();
+    let wide: bool = kani::any();
+    kani::assume(if wide { v <= 0xFFFF_FFFF } else { v <= 0xFFFF });
+    let mut reference = Out::new();
+    if wide { reference.put_u32(v as u32); } else { reference.put_u16(v as u16); }
+    let mut buf = [0u8; BUF];
+    let used;
+    {
+        let mut w: &mut [u8] = &mut buf[..];
+        if wide { write_usize_as_u32(&mut w, v).unwrap(); } else { write_usize_as_u16(&mut w, v).unwrap(); }
+        used = BUF - w.len();
+    }
+    witness!(wide && v > 0xFFFF, "W: a length above 65535 written");
+    assert!(used == reference.n && same_buffers(&buf, &reference.bytes), "C04: a count / length prefix is not the little-endian field of the documented width");
+});
+
 // the harness-side validity predicate for strings is exactly std's
 harness!(ser_utf8_predicate_exact, unwind = 8, {
     let mut t = [0u8; MAX_STR];
